@@ -314,12 +314,30 @@ floating_point_number = (
 # Basic arithmetic operations
 plus, minus, mult, div = map(pp.Literal, "+-*/")
 
+
+
+def _fold_arithmetic_chain(tokens: pp.ParseResults) -> float:
+    # A left-associative level receives the whole chain: [a, op, b, op, c, ...]
+    chain = tokens[0]
+    result = chain[0]
+    for op, operand in zip(chain[1::2], chain[2::2]):
+        if op == "*":
+            result = result * operand
+        elif op == "/":
+            result = result / operand
+        elif op == "+":
+            result = result + operand
+        else:
+            result = result - operand
+    return result
+
+
 # Using infixNotation to manage precedence of operations
 arithmetic_expr = pp.infixNotation(
     floating_point_number,
     [
-        (mult | div, 2, pp.opAssoc.LEFT, lambda s, l, t: t[0][0] * t[0][2] if t[0][1] == "*" else t[0][0] / t[0][2]),
-        (plus | minus, 2, pp.opAssoc.LEFT, lambda s, l, t: t[0][0] + t[0][2] if t[0][1] == "+" else t[0][0] - t[0][2]),
+        (mult | div, 2, pp.opAssoc.LEFT, _fold_arithmetic_chain),
+        (plus | minus, 2, pp.opAssoc.LEFT, _fold_arithmetic_chain),
     ],
 )
 
